@@ -89,7 +89,25 @@ BLOCK_MATCH = "match n\n{i}    1 =>\n{i}        print(1)\n{i}        {v1}\n{i}  
 def shape_stress(draw):
     """Signatures, definition targets x initialiser forms, value positions: shapes where the generator has to choose between
     an expression and a statement form, or has to print a list that may be empty."""
-    kind = draw(st.sampled_from(["signature", "signature", "target_init", "target_init", "value_position", "nested_ternary"]))
+    kind = draw(st.sampled_from(["signature", "signature", "target_init", "target_init", "value_position", "nested_ternary",
+                                 "operand_forms"]))
+    if kind == "operand_forms":
+        # forms that Python's grammar does not take as a bare operand (not, a sign, a conditional expression, a lambda) below
+        # every kind of binary operator, in the statement positions where expressions occur
+        op, l, ty = draw(st.sampled_from([("=", "p", "B"), ("!=", "p", "B"), ("and", "p", "B"), ("or", "p", "B"), ("is", "p", "B"),
+                                          ("+", "a", "I"), ("-", "a", "I"), ("*", "a", "I"), ("^", "a", "I"), ("//", "a", "I"),
+                                          ("mod", "a", "I"), ("<", "a", "I"), (">=", "a", "I"), ("=", "a", "I"), ("<<", "a", "I"),
+                                          ("_and_", "a", "I"), ("in", "a", "L")]))
+        forms = {"B": ["not q", "(not q)", "not (q or p)", "not not q", "if q then p else q", "(if q then p else q)", "not a = b",
+                       "a isnta Int", "not a isa Int"],
+                 "I": ["-b", "- -b", "(-b)", "+b", "_not_ b", "if p then a else b", "(if p then a else b)", "-b ^ 2", "(-b) ^ 2"],
+                 "L": ["[b, -b]", "[b | b in [1, 2], not p]", "{b, -b}"]}[ty]
+        r = draw(st.sampled_from(forms))
+        e = "%s %s %s" % (l, op, r) if draw(st.integers(0, 3)) else "%s %s %s" % (r, op, l) if ty != "L" else "%s %s %s" % (l, op, r)
+        pos = draw(st.sampled_from(["def r := %s", "print(%s)", "if %s then print(1)", "def f() => %s", "def r := [%s, 1]",
+                                    "def r := \\z: Int => %s", "print(\"{%s}\")", "while %s do\n    break", "def g(k: Int := 1) => print(k)\ng(%s)"]))
+        src = "def a := 7\ndef b := 3\ndef p := True\ndef q := False\n" + pos % e + "\n"
+        return {"gen": "shape-operand_forms", "src": src}
     if kind == "signature":
         n = draw(st.integers(0, 3))
         ps = [draw(st.sampled_from(PARAMS)) for _ in range(n)]
